@@ -175,7 +175,13 @@ def run_replay(cases, release=False, timeout=600):
                 lines.append("%s %s" % (k, esc(x if isinstance(x, str) else str(x))))
         lines.append("end")
     p = subprocess.run([binp], input="\n".join(lines).encode() + b"\n", stdout=subprocess.PIPE, stderr=subprocess.PIPE, timeout=timeout)
-    if p.returncode != 0: raise mirdump.DumpError("replay binary failed: " + p.stderr.decode(errors="replace")[-2000:])
+    if p.returncode != 0:
+        if len(cases) == 1:
+            # the real code took the whole process down (stack overflow / abort cannot be caught by catch_unwind)
+            return [{"panic": "the replay process died (exit status %s): %s" % (p.returncode, p.stderr.decode(errors="replace")[-300:].strip())}]
+        out = []
+        for c in cases: out += run_replay([c], release, timeout)
+        return out
     out = []; cur = None
     for ln in p.stdout.decode().split("\n"):
         if ln.startswith("case "): cur = {}
